@@ -91,6 +91,13 @@ fn families() -> Vec<Family> {
             len_thorough: 8,
         },
         Family {
+            name: "m-large-table(unary tri and constant KK behind 66 other operators)",
+            table: Table::new((0..66).map(|i| OpDesc::bin(intern(&format!("w{i:02}")), 1, false)).chain([OpDesc::un("tri"), OpDesc::cst("KK", 44), OpDesc::bin_un("-", 0, false)]).collect()),
+            chars: vec!["t", "r", "i", "K", "x", "1", " ", "(", "-", "p"],
+            len_quick: 7,
+            len_thorough: 8,
+        },
+        Family {
             name: "h-greek(σ unary, π constant)",
             table: Table::new(vec![OpDesc::un("σ"), OpDesc::cst("π", 31), OpDesc::bin_un("+", 0, true), OpDesc::un("σσ")]),
             chars: vec!["π", "σ", "α", "Ω", "a", "2", " ", "+", "_"],
